@@ -238,4 +238,116 @@ example : ∃ L1 L2, sortPointsItems argsortStable wTol wMesh = some L1 ∧
   C02_canonical_points isArgsort_stable isArgsort_insRev (C02_hyp_sound w_pointHyp).1
     (C02_hyp_sound wB_pointHyp).1 w_cands_same w_relabeled (by decide) (C02_hyp_sound w_pointHyp).2
 
+/-! ### phase 2: the relabelled-pair theorems apply to `wB = relabel ρ κ wA` -/
+
+/-- `wB` IS the relabelling of `wA` by the point order `[5,4,3,2,1,0]` and the cell order `[1,0]` -/
+def wκ (ct : String) : List Nat := if ct = "TRIANGLE" then [1, 0] else []
+
+theorem wB_relabel : relabelF [5, 4, 3, 2, 1, 0] wκ wA = wB := by decide +kernel
+
+/-- the decidable hypothesis on the ONE underlying data set holds (non-vacuity of `BaseHyp`) -/
+theorem wA_sortIdx :
+    sortPointsIdx argsortStable (meshTolOf wA.mesh) (baseOf wA).mesh = some [4, 0, 3, 1, 5, 2] := by
+  have hp : pointHyp (meshTolOf wA.mesh) (baseOf wA).mesh = true := by decide +kernel
+  rw [← (C02_sort_points_canonical isArgsort_ins hp).1]
+  decide +kernel
+
+theorem wA_baseHyp : baseHyp hDemo wA = true := by
+  simp only [baseHyp, wA_sortIdx]
+  decide +kernel
+
+theorem wκ_ok : CellMapsOk wA wκ := by
+  intro ct
+  by_cases e : ct = "TRIANGLE"
+  · subst e; decide
+  · have hne : (("TRIANGLE" : String) == ct) = false := by
+      simp only [beq_eq_false_iff_ne, ne_eq]
+      exact fun h => e h.symm
+    have h0 : wA.mesh.cellsOf ct = [] := by
+      unfold Mesh.cellsOf
+      simp [wA, wMesh, hne]
+    simp [wκ, e, h0]
+
+/-- `C02_sort_canonical`: `sort(wB) = sort(wA)` as complete data sets, for the stable argsort on one
+    side and the reversed-tie insertion sort on the other -/
+example : ∃ S, sortMesh argsortStable hDemo (meshTolOf wB.mesh) wB = some S ∧
+    sortMesh argsortInsRev hDemo (meshTolOf wA.mesh) wA = some S := by
+  have h := C02_sort_canonical isArgsort_stable isArgsort_insRev (C02_base_hyp_sound wA_baseHyp)
+    (ρ1 := [5, 4, 3, 2, 1, 0]) (ρ2 := List.range wA.mesh.points.length) (by decide) (List.Perm.refl _)
+    wκ_ok (idCellMaps_ok wA)
+  rw [wB_relabel, C02_relabel_id (by decide +kernel)] at h
+  exact h
+
+/-- … and the sorted view is the expected one (evaluated with the kernel-reducible instance) -/
+example : sortMesh argsortIns hDemo (meshTolOf wB.mesh) wB = sortMesh argsortInsRev hDemo (meshTolOf wA.mesh) wA := by
+  decide +kernel
+
+/-- `C02_no_false_fail_noise_free_partial` applies to `(wB, wA)` in either role; its remaining
+    hypothesis `hrigid` holds because `mesh_equal` rejects the pair as stored -/
+example : ladderPasses (ladder argsortStable argsortInsRev hDemo {} wB wA) = true ∧
+    ladderPasses (ladder argsortStable argsortInsRev hDemo {} wA wB) = true := by
+  have h := C02_no_false_fail_noise_free_partial isArgsort_stable isArgsort_insRev
+    (C02_base_hyp_sound wA_baseHyp) (ρ := [5, 4, 3, 2, 1, 0]) (κ := wκ) (by decide) wκ_ok
+    (fun h => absurd (wB_relabel ▸ h) (by decide +kernel))
+    (fun h => absurd (wB_relabel ▸ h) (by decide +kernel))
+  rw [wB_relabel] at h
+  exact h
+
+/-- NEGATION WITNESS for `hrigid`: `twinB` is the relabelling of `twinA` that exchanges the two stacked
+    triangles; `mesh_equal` accepts the pair as stored although the point order is not the identity —
+    and the comparison reports a false FAIL (see above).  `twinA` is outside `Distinguishable`. -/
+example : relabelF [3, 4, 5, 0, 1, 2] (fun ct => if ct = "TRIANGLE" then [1, 0] else []) twinA = twinB ∧
+    meshEqual (meshTolOf twinA.mesh) twinB.mesh twinA.mesh = true ∧
+    baseHyp hDemo twinA = false := by
+  decide +kernel
+
+/-! ### a data set without coincident points: `C02_no_false_fail_continuous` applies with NO extra assumption -/
+
+/-- the unit square cut into two triangles, one point value per corner, one cell value per triangle -/
+def sqA : MeshFields :=
+  ⟨{ dim := 2, points := [[0, 0], [one, 0], [one, one], [0, one]], cells := [("TRIANGLE", [[0, 1, 2], [0, 2, 3]])] },
+   [⟨"p", ⟨.flt f64, [4], [1 * one, 2 * one, 3 * one, 4 * one]⟩⟩],
+   [⟨"c", "TRIANGLE", ⟨.int true 64, [2], [10, 20]⟩⟩]⟩
+
+theorem sqA_sortIdx : sortPointsIdx argsortStable (meshTolOf sqA.mesh) (baseOf sqA).mesh = some [0, 3, 1, 2] := by
+  have hp : pointHyp (meshTolOf sqA.mesh) (baseOf sqA).mesh = true := by decide +kernel
+  rw [← (C02_sort_points_canonical isArgsort_ins hp).1]
+  decide +kernel
+
+theorem sqA_baseHyp : baseHyp hDemo sqA = true := by
+  simp only [baseHyp, sqA_sortIdx]
+  decide +kernel
+
+theorem sqA_continuous : continuousHyp sqA = true := by decide +kernel
+
+theorem sqκ_ok : CellMapsOk sqA wκ := by
+  intro ct
+  by_cases e : ct = "TRIANGLE"
+  · subst e; decide
+  · have hne : (("TRIANGLE" : String) == ct) = false := by
+      simp only [beq_eq_false_iff_ne, ne_eq]
+      exact fun h => e h.symm
+    have h0 : sqA.mesh.cellsOf ct = [] := by
+      unfold Mesh.cellsOf
+      simp [sqA, hne]
+    simp [wκ, e, h0]
+
+/-- every hypothesis is discharged by evaluation; the conclusion holds for two different argsorts,
+    in both roles, for the relabelling `ρ = [2,0,3,1]`, cells exchanged -/
+example : ladderPasses (ladder argsortStable argsortInsRev hDemo {} (relabelF [2, 0, 3, 1] wκ sqA) sqA) = true ∧
+    ladderPasses (ladder argsortStable argsortInsRev hDemo {} sqA (relabelF [2, 0, 3, 1] wκ sqA)) = true :=
+  C02_no_false_fail_continuous isArgsort_stable isArgsort_insRev sqA_baseHyp sqA_continuous (by decide) sqκ_ok
+
+/-- the relabelled data set, and the model's verdict evaluated directly (kernel-reducible argsorts) -/
+example : relabelF [2, 0, 3, 1] wκ sqA =
+    ⟨{ dim := 2, points := [[one, one], [0, 0], [0, one], [one, 0]], cells := [("TRIANGLE", [[1, 0, 2], [1, 3, 0]])] },
+     [⟨"p", ⟨.flt f64, [4], [3 * one, 1 * one, 4 * one, 2 * one]⟩⟩],
+     [⟨"c", "TRIANGLE", ⟨.int true 64, [2], [20, 10]⟩⟩]⟩ ∧
+    ladder argsortIns argsortInsRev hDemo {} (relabelF [2, 0, 3, 1] wκ sqA) sqA =
+      .done 3 ⟨true, [("p", "", .passed), ("c", "TRIANGLE", .passed)]⟩ := by
+  decide +kernel
+
+/-- `wA` (coincident points on the diagonal) is outside `continuousHyp` -/
+example : continuousHyp wA = false := by decide +kernel
+
 end Fc.C02.Witness
